@@ -16,7 +16,8 @@ RULE = (
     "(c) per-chain initial states (direct Engine and builder multiple_chains=True) with one chain's "
     "initial value perturbed - the other chains must not change; (d) jitter functions supplied by the "
     "harness (key-ignoring shift; key-using, reporting (key,in,out) through a debug callback) for "
-    "replicated and per-chain initial states. non-trivial = >=2 chains, >=2 kernels and chunk < some "
+    "replicated and per-chain initial states; (e) the same EngineBuilder built twice; engine seed given as int, key and "
+    "per-chain key array. non-trivial = >=2 chains, >=2 kernels and chunk < some "
     "duration; distinct by configuration hash"
 )
 REQUIRED = ["per_chain_keys_equal_split", "second_build_identical", "identical_runs_bitwise", "int_seed_equals_key", "all_keys_distinct",
